@@ -555,3 +555,61 @@ def standard_proof_phase(res, module, prefix, gen_status, needed_modules, thorou
         if not okc:
             res.broken.append(("leanchecker %s" % module, outc))
     return not res.broken
+
+
+# ---------------------------------------------------------------- generic campaigns over generated dispatch entries
+def dispatch_signatures():
+    """name -> list of 'w' / 'r' argument kinds, parsed from the generated Lean dispatcher"""
+    sigs = {}
+    path = os.path.join(LEAN, "Driver", "GenDispatch.lean")
+    if not os.path.exists(path):
+        return sigs
+    for l in open(path):
+        m = re.match(r'\s*\| "(\w+)", \[(.*?)\] =>', l)
+        if m:
+            pats = [p.strip() for p in m.group(2).split(",") if p.strip()]
+            sigs[m.group(1)] = ["w" if p.startswith(".w") else "r" for p in pats]
+    return sigs
+
+
+def parse_reply(r):
+    if r is None or not r.startswith("ok"):
+        return None
+    try:
+        return [int(x, 16) for x in r.split()[1:]]
+    except ValueError:
+        return None
+
+
+def dedup_broken(res, limit=12):
+    seen, out = set(), []
+    for w, d in res.broken:
+        if w in seen:
+            continue
+        seen.add(w)
+        out.append((w, d))
+    res.broken = out[:limit]
+
+
+def corr_campaign(res, harness, driver, cases, flavour, spec=None):
+    """cases: list of dict(line, key, tag(optional nontrivial tag), expect(optional fn(list[int]) -> (ok, expected_str)))
+    compares implementation with model (correspondence) and, when `expect` is present, implementation with spec."""
+    lines = [c["line"] for c in cases]
+    impl = run_parallel(harness, lines)
+    model = run_parallel(driver, lines)
+    for c, ri, rm in zip(cases, impl, model):
+        res.note_case(c["line"], c.get("tag"))
+        if c.get("expect") is not None:
+            vals = parse_reply(ri)
+            ok, exp = (False, "a reply") if vals is None else c["expect"](vals)
+            if not ok:
+                res.failures.append({"key": c["key"], "lines": [c["line"][:4000]], "expected": exp, "observed": (ri or "")[:2000],
+                                     "note": "implementation (%s build) vs specification" % flavour})
+        if ri != rm:
+            res.broken.append(("correspondence %s: implementation != model" % c["key"],
+                               "line: %s\nimpl : %s\nmodel: %s" % (c["line"][:2000], (ri or "")[:1000], (rm or "")[:1000])))
+        else:
+            res.traces += 1
+    if len(res.samples) < 8:
+        res.samples.extend({"line": l[:300], "impl": (i or "")[:200], "model": (m or "")[:200]} for l, i, m in list(zip(lines, impl, model))[:4])
+    dedup_broken(res)
